@@ -57,6 +57,16 @@ CHECKS = {
             "Every request type is sent valid, with size+1, truncated body, REPLY flag, invalid body or unknown code, carrying 0..=40 distinct memfds attached to header or body, optionally followed by a second descriptor-carrying message, and the endpoints are torn down before serving, after the first or after the second message, with a handler that keeps or drops its files; likewise every frontend operation's reply with 0..=33 unexpected descriptors, a full successful session with lent descriptors, and the frontend request server with 0..=40 descriptors. After teardown, for every passed file the number of open descriptors must be 1 (the harness's original) plus the copies the application holds, no identity is delivered twice, descriptors lent to sending calls are still open and the same file, and the process's descriptor numbers equal the snapshot taken before plus what is held.",
             "Trusted: /proc/self/fd, fstat. Serial execution inside one process. Daemon-level scenarios (vring kick/call files) are covered by the daemon checks' own accounting where present.",
             "DESIGN.md 4/C09"),
+    "C11": ("model_checking", "xstate",
+            "explicit-state BFS to closure over control-message histories on a real VhostUserDaemon, reference vring state machine co-executed on every transition, state key = model state + implementation state (ring flags, epoll registrations)",
+            "Breadth-first search over histories of {SET_FEATURES with/without PROTOCOL_FEATURES, SET_VRING_KICK new/no descriptor, SET_VRING_CALL, SET_VRING_ENABLE 0/1, GET_VRING_BASE, RESET_DEVICE, guest kick on the current descriptor} on two rings of a real daemon (RwLock and Mutex rings, one and two workers), every message acknowledged and a two-round probe listener on each worker as ordering barrier, so 'not dispatched' is observed without sleeping. After every step the dispatch count per ring must equal the reference model's (a pending kick is dispatched iff the ring is started and enabled now; kicks raised while inactive stay in the eventfd and are dispatched by the activating step), GET_VRING_BASE returns the index and drops both descriptors, and each worker's epoll set (read from /proc fdinfo) holds exactly the kick descriptors of active rings. The key includes the implementation's ring flags and epoll registrations; closure is reached at 296 states (depth 9).",
+            "Trusted: /proc/self/fdinfo for the epoll set; the two-probe barrier argument (DESIGN 2.1). Steps the protocol forbids in the current state are not in the alphabet for that state. Random histories beyond the closure are not claimed.",
+            "DESIGN.md 4/C11"),
+    "C17": ("model_checking", "lattice",
+            "exhaustive enumeration of queues-per-thread configurations (all mask assignments for n<=4 queues on <=3 workers) x every queue kicked on a real daemon, plus custom listener ids over the 64-bit boundary set",
+            "For every assignment of n = 1..=4 (5 at thorough) queues to 1..=3 worker masks drawn from all non-empty subsets of the n bits (and masks with bits beyond n) a real daemon is started, every ring is given a distinct size, started and enabled, every queue is kicked once and a barrier is placed on every worker: exactly one dispatch must be observed, on the first thread whose mask contains the queue, with event id = number of lower-numbered queues in that mask, and vrings[event id] must be the kicked ring (identified by its size); the exit event must be registered with id num_queues. Custom listener ids {0..5, 255, 256, 65534..65538, 2^32+k, 2^64-1} must be refused (reserved range, or not representable) or delivered with exactly the registered id while queues keep working.",
+            "Trusted: ring identity by configured size; /proc fdinfo for the exit registration. 6 queues on 3 workers is covered only partially (time bound, reported as cap).",
+            "DESIGN.md 4/C17"),
     "C18": ("model_checking", "lattice",
             "exhaustive enumeration of all request histories up to length 3 x handler results x REPLY_ACK on the real Backend proxy<->FrontendReqHandler pair in coop mode, plus independent decoding of the acknowledgement bytes by a raw peer",
             "The five backend-initiated request kinds are issued through the real proxy to the real frontend request server for the UUID / mapping-descriptor lattice, every handler result class (0, non-zero values, six errno values, error without errno), REPLY_ACK on/off and all histories of length 1-2 (length 3 over a reduced alphabet; all at thorough) that mix failing and succeeding requests. Oracle: exactly one handler call with equal arguments and the same file; with REPLY_ACK the proxy succeeds iff the handler returned 0 and each call's status belongs to its own request (a missing or stray ack would shift it; the socket must be empty at the end); without REPLY_ACK nothing is written back or awaited. The ack value (value / negated errno) is decoded from the wire by an independent raw peer for every (kind, result, REPLY_ACK, NEED_REPLY).",
